@@ -698,6 +698,7 @@ func (w *world) rndVal() interface{} {
 }
 
 var tagCounter int
+var retouchPos = -1
 
 // unique tags as list values let the C04 oracle follow each element
 func (w *world) rndTag() interface{} {
@@ -768,7 +769,14 @@ func (w *world) rndCall(r *replica) callSpec {
 			pos = size + 1 + rng.Intn(2)
 		case 1:
 			pos = -1
+		case 2, 3, 4:
+			// come back to the element touched last time (updated, or next to a deleted one): operations on
+			// elements that already carry a later timestamp or a tombstone
+			if retouchPos >= 0 && retouchPos <= size {
+				pos = retouchPos
+			}
 		}
+		retouchPos = pos
 		k := rng.Intn(10)
 		if size < 3 && rng.Intn(4) != 0 {
 			k = 0
